@@ -1191,6 +1191,9 @@ def iterable_consumed_twice(f: FuncInfo):
                     elif isinstance(x, ast.Starred) and isinstance(x.value, ast.Name) and x.value.id == p:
                         cons.append((n, x))
         rb = {n.id for n in rebinds}
+        # a consumption counts only where the name can still be the caller's iterable: some path from the entry reaches it
+        # without passing a rebinding (`p = tuple(p)` first, then any number of loops over p, is fine)
+        cons = [(n, e) for n, e in cons if n.id in rb or cfg.path_exists_avoiding(cfg.entry, {n.id}, rb, exc=False)]
         for i, (n1, e1) in enumerate(cons):
             for n2, e2 in cons[i + 1 :] + cons[:i]:
                 if n1.id == n2.id and e1 is e2:
